@@ -103,8 +103,13 @@ def e_case(c):
         vals[k] = float(v)
     check(abs(vals["mu0"] - a) <= 0.08 * d, "mu0-off", f"mu0={vals['mu0']:.5g} vs a={a:.5g} ({ctx})")
     check(abs(vals["mu1"] - b) <= 0.08 * d, "mu1-off", f"mu1={vals['mu1']:.5g} vs b={b:.5g} ({ctx})")
+    # s0/s1 are sample standard deviations over the samples of ONE level inside the +-5 % window of every other slot: about nslots/4
+    # independent noise samples. The statement's lower limit sigma/2 is a ~3-sigma event for a 16-sample estimate (64 slots), so it is
+    # applied as stated only where missing it would be a six-sigma event, and scaled down (to 0 for the shortest records) otherwise.
+    neff = c["nslots"] / 4
+    lower = sigma * max(0.0, min(0.5, 1 - 6 / np.sqrt(2 * neff)))
     for k in ("s0", "s1"):
-        check(sigma / 2 <= vals[k] <= 2 * sigma + 0.03 * d, f"{k}-out-of-band", f"{k}={vals[k]:.4g} sigma={sigma:.4g} ({ctx})")
+        check(lower <= vals[k] <= 2 * sigma + 0.03 * d, f"{k}-out-of-band", f"{k}={vals[k]:.4g} sigma={sigma:.4g} lower limit {lower:.4g} ({ctx})")
     check(vals["mu0"] < vals["threshold"] < vals["mu1"], "threshold-not-between-levels", f"{vals['mu0']} {vals['threshold']} {vals['mu1']} ({ctx})")
     check(abs(vals["t_right"] - vals["t_left"] - 1) <= 0.1, "crossings-not-one-slot-apart", f"t_left={vals['t_left']:.4f} t_right={vals['t_right']:.4f} ({ctx})")
     check(abs(vals["t_opt"] - (vals["t_left"] + vals["t_right"]) / 2) <= 2 / 128 + 1e-12, "t_opt-not-midway", f"{vals} ({ctx})")
